@@ -125,7 +125,15 @@ class LinkRecorder:
 
         tracer.wrap(Link, "can_transmit_frame", after=after_can)
         tracer.wrap(Link, "transmit_frame", before=before_tx, after=after_tx)
-        tracer.wrap(Link, "pre_timestep", after=after_pre)
+        # the start of a tick is taken from the NETWORK's pre-timestep (every link of the network, whether or not the
+        # link's own pre_timestep was called): "loads start every tick at zero" is judged on what the link then reports
+        from primaite.simulator.network.container import Network
+
+        def after_net_pre(net, tok, ret, exc, timestep):
+            for link in list(net.links.values()):
+                rec._wev(link, "PreTick")
+
+        tracer.wrap(Network, "pre_timestep", after=after_net_pre)
         tracer.watch(NetworkInterface, {"enabled"}, on_enabled)
         tracer.wrap(AirSpace, "can_transmit_frame", after=after_acan)
         tracer.wrap(AirSpace, "transmit", before=before_atx, after=after_atx)
